@@ -216,6 +216,19 @@ def norm_trace_impl(trace, kinds=('start', 'default', 'emit', 'save')):
     return [e for e in trace if e[0] in kinds]
 
 
+KNOWN_EE = {'OneOfDoesNotHaveResultError', 'RecurrentSubgraphDoesNotHaveResultError', 'SwitchCaseDoesNotHaveBranchError',
+            'ArtifactAlreadyExists', 'RuntimeError', 'CancelledError', 'INTERNAL', 'OUT_OF_FUEL'}
+
+
+def norm_internal(x):
+    """engine-internal lookup errors (KeyError, AttributeError, ...) are one class for the model: INTERNAL"""
+    if isinstance(x, list):
+        if len(x) == 2 and x[0] == 'ee' and isinstance(x[1], str) and x[1] not in KNOWN_EE:
+            return ['ee', 'INTERNAL']
+        return [norm_internal(y) for y in x]
+    return x
+
+
 def compare(obs, res, strict_order=True):
     """K2: implementation observation vs model observation (single run). Returns a list of disagreements."""
     names = res['names']
@@ -225,7 +238,7 @@ def compare(obs, res, strict_order=True):
     if res.get('fuel'):
         diffs.append('model-out-of-fuel')
     run = obs['runs'][0]
-    io = run['outcome']
+    io = norm_internal(run['outcome'])
     mo = norm_outcome_model(res['outcome'], names)
     # run() picks "the first" error by iterating a set of Task objects (address order): any error of a finished
     # helper task at that moment is an admissible outcome (DESIGN 3.2) -> membership, not equality
@@ -239,7 +252,7 @@ def compare(obs, res, strict_order=True):
         diffs.append('deadlock: impl=%s model=%s' % (ideadlock, res['deadlock']))
     if res['missing']:
         diffs.append('model: %d completed gates were not outstanding in the model' % res['missing'])
-    it = norm_trace_impl(run['trace'])
+    it = norm_internal(norm_trace_impl(run['trace']))
     mt = norm_trace_model(res['trace'], names)
     if multi:
         it = [e if not (e[0] == 'emit' and e[2] == 'pipeline_complete') else e[:4] + ['ANY-OF-ALTS'] for e in it]
